@@ -231,7 +231,12 @@ func runUT(args []string) string {
 		return "bad-args"
 	}
 	m := junkMessage()
-	err := m.UnmarshalText(unhx(args[0]))
+	buf := unhx(args[0])
+	err := m.UnmarshalText(buf)
+	// the text buffer is the caller's: it is reused for the next record
+	for i := range buf {
+		buf[i] = '\n'
+	}
 	return unmarshalErrClass(err) + " | " + msgShow(m)
 }
 
